@@ -45,6 +45,17 @@ SUBSCRIPT_EXEMPT = [
 _CODE_RENDERERS = tuple(f"flowmark.formats.flowmark_markdown:MarkdownNormalizer.{m}" for m in ("render_fenced_code", "render_code_block", "render_custom_fenced_code"))
 
 
+def _referenced_as_value(prog, fi: FuncInfo) -> bool:
+    """Is the function mentioned anywhere in the package other than in its own definition (passed around, stored, called)?"""
+    for m in prog.repo.modules.values():
+        for x in ast.walk(m.tree):
+            if isinstance(x, ast.Attribute) and x.attr == fi.name:
+                return True
+            if isinstance(x, ast.Name) and x.id == fi.name and isinstance(x.ctx, ast.Load):
+                return True
+    return False
+
+
 def _exempt_applies(prog, q: str, fi: FuncInfo) -> bool:
     """`<code-block renderers>`: the three code-block render methods and the private code they share (helpers whose every
     caller is one of them) - whatever that helper is called."""
@@ -55,6 +66,8 @@ def _exempt_applies(prog, q: str, fi: FuncInfo) -> bool:
     from .common import callers_index
 
     idx = callers_index(prog)
+    if not idx.get(fi.qual) and fi.name.startswith("_") and not fi.name.startswith("__") and not _referenced_as_value(prog, fi):
+        return True  # a private helper nobody calls any more (its body was written out in the render methods): unreachable
     seen: set[str] = set()
     work = [fi.qual]
     while work:
